@@ -8,6 +8,10 @@ CHECKS = {
    text="TLC model-checks spec/Response.tla (commit-once reference layer + the status/statusSet/headerSent mechanism layer, Impl refines Ref) and spec/Middleware.tla; every maximal behaviour of the reference state graph (all operation sequences up to the bound over 15 concrete operations) is replayed through the real Server/Response objects with the wire projection compared after every step; seeded longer behaviours come from TLC -simulate.",
    note="Trusted: TLC + Json module, httptest.ResponseRecorder with a commit counter as the underlying connection, the 15-operation alphabet.",
    tech="TLA+ spec (Response.tla, Middleware.tla) checked by TLC; spec behaviours replayed into the real HTTP writer"),
+ "C12": dict(cat="model_checking", ref="§5 C12",
+   text="TLC model-checks spec/TempVM.tla (Isolation, LifecycleIsLocal, FreshIsBase as action properties, BaseVisibleEverywhere) and prints its state graph; every path up to the bound (1 base + 2 temporary VMs, deliberate name collisions) is replayed on real VM/TempVM objects — definitions made through a parser bound to the VM as requests do — with the resolve table of every live VM compared after every step through the Go API and through scripts (class_exists/new/call); long walks (40 steps, 4 temps, 8 names) come from TLC -simulate with a history variable.",
+   note="Trusted: TLC + Json module; resolvability (not which colliding definition wins) is the compared observable.",
+   tech="TLA+ spec (TempVM.tla) checked by TLC; state-graph paths and simulated walks replayed on real VMs"),
 }
 NOT_YET = "check not built yet in this round (planned: TLA+ spec + conformance binding, see DESIGN.md §5)"
 def main():
